@@ -815,7 +815,7 @@ func ruleHonestStep(w *World, r *Run, a *updAnalysis, rule string, only ...strin
 		}
 		success, refused := 0, 0
 		considered := 0
-		condNote, refusedAt := "", ""
+		condNote, refusedAt, hiddenCond := "", "", ""
 		var deadEnd *updPath
 		for _, v := range a.paths {
 			if v.prev == nil || v.next == nil || v.known != 1 {
@@ -890,6 +890,9 @@ func ruleHonestStep(w *World, r *Run, a *updAnalysis, rule string, only ...strin
 				case t.Kind == "call" && (t.Name == cBytesEq || t.Name == cCTCmp) && len(t.Args) == 4 && ((t.Args[2] == hashOf(v.prev) && t.Args[3] == hashOf(v.next)) || (t.Args[3] == hashOf(v.prev) && t.Args[2] == hashOf(v.next))):
 				default:
 					extraCond = short(t.String())
+					if hiddenState(a, t) {
+						hiddenCond = extraCond
+					}
 				}
 			}
 			// every path an honest request can take must accept: a condition outside the protocol's own predicates (a
@@ -920,6 +923,10 @@ func ruleHonestStep(w *World, r *Run, a *updAnalysis, rule string, only ...strin
 		if deadEnd != nil && len(deadEnd.verifies) > 0 {
 			pos = w.pos(deadEnd.verifies[0].Pos)
 			msg += ": proof.VerifyConsistency is reached with size1 == 0 < size2, which it always rejects"
+		}
+		if hiddenCond != "" && success >= 1 && refused == 0 {
+			r.Fail(rule, key, pos, fmt.Sprintf("what an honest update in ordering class %s is compared with depends on %s: state the witness keeps outside the store, which can disagree with the stored checkpoint (after a failed write, a restart) and then turns the honest request away", c.name, hiddenCond))
+			continue
 		}
 		r.Check(success >= 1 && refused == 0, rule, key, pos, msg)
 	}
@@ -1064,6 +1071,22 @@ func specFound(old, p, n int, rootEq, proofOK, proofEmpty bool) string {
 	return "accepted/cosigned"
 }
 
+// hiddenState: the term reads state the witness keeps outside the store and its configuration: a concurrent container or
+// atomic reached from the receiver, a map of the receiver other than the configured logs, a package variable.
+func hiddenState(a *updAnalysis, t *Term) bool {
+	return anySub(t, func(x *Term) bool {
+		switch {
+		case x.Kind == "call" && len(x.Args) >= 2 && x.Args[1] != nil && mentions(x.Args[1], a.pRecv) && strings.Contains(x.Name, "sync."):
+			return true
+		case x.Kind == "lookup" && x.Args[0] != a.logsMap && mentions(x.Args[0], a.pRecv):
+			return true
+		case x.Kind == "global" && !isSentinel(x):
+			return true
+		}
+		return false
+	})
+}
+
 // C09.a DECISION-TABLE
 func ruleDecisionTable(w *World, r *Run, a *updAnalysis, rule string) {
 	if !a.guard(r, rule) {
@@ -1099,17 +1122,7 @@ func ruleDecisionTable(w *World, r *Run, a *updAnalysis, rule string) {
 			if !rec {
 				// a verdict must be a function of the request, the configuration and the checkpoint read from the store in
 				// this call: a branch on other state kept in the witness (a cache, a map, a package variable) is a violation
-				hidden := anySub(t, func(x *Term) bool {
-					switch {
-					case x.Kind == "call" && len(x.Args) >= 2 && x.Args[1] != nil && mentions(x.Args[1], a.pRecv) && strings.Contains(x.Name, "sync."):
-						return true
-					case x.Kind == "lookup" && x.Args[0] != a.logsMap && mentions(x.Args[0], a.pRecv):
-						return true
-					case x.Kind == "global" && !isSentinel(x):
-						return true
-					}
-					return false
-				})
+				hidden := hiddenState(a, t)
 				if hidden {
 					r.Fail(rule, a.key(v, "verdict depends only on request, configuration and the checkpoint read in this call"), w.pos(f.At), "the verdict branches on "+short(t.String())+": state kept in the witness outside the store (it can disagree with the stored checkpoint after a failed write or a restart, so the first matching protocol rule is decided on the wrong sizes)")
 					return
